@@ -167,41 +167,12 @@ func modhexAppendForm(w *World, mh *ssa.Function) *mhAppend {
 				if !ok {
 					return "", nil, nil
 				}
-				e := strip(ix)
-				for {
-					cv, isConv := e.(*ssa.Convert)
-					if !isConv || !widening(cv.X.Type(), cv.Type()) {
-						break
-					}
-					e = strip(cv.X)
-				}
-				bin, ok := e.(*ssa.BinOp)
-				if !ok {
+				kind, x := nibbleOf(ix)
+				if kind == "" {
 					return "", nil, nil
 				}
-				if bin.Op == token.AND {
-					if m, isM := intConst(bin.Y); !isM || m != 15 {
-						return "", nil, nil
-					}
-					if sh, isSh := strip(bin.X).(*ssa.BinOp); isSh && sh.Op == token.SHR {
-						if k, isK := intConst(sh.Y); isK && k == 4 {
-							s, i := byteOf(sh.X)
-							return "hi", s, i
-						}
-						return "", nil, nil
-					}
-					s, i := byteOf(bin.X)
-					return "lo", s, i
-				}
-				if bin.Op == token.SHR {
-					// an 8-bit value shifted right by four is its high nibble
-					bt, isB := bin.X.Type().Underlying().(*types.Basic)
-					if k, isK := intConst(bin.Y); isK && k == 4 && isB && bt.Kind() == types.Uint8 {
-						s, i := byteOf(bin.X)
-						return "hi", s, i
-					}
-				}
-				return "", nil, nil
+				sq, i := byteOf(x)
+				return kind, sq, i
 			}
 			k0, s0, i0 := nibble(vals[0])
 			k1, s1, i1 := nibble(vals[1])
@@ -261,4 +232,55 @@ func (w *World) globalOID(g *ssa.Global) (string, bool) {
 		}
 	}
 	return t2dotted(vals), true
+}
+
+// nibbleOf classifies an alphabet index: "hi" for the high nibble of an 8-bit value X ((X>>4)&15, X>>4, X/16), "lo" for
+// its low nibble (X&15, X%16). Returns X.
+func nibbleOf(ix ssa.Value) (string, ssa.Value) {
+	e := strip(ix)
+	for {
+		cv, isConv := e.(*ssa.Convert)
+		if !isConv || !widening(cv.X.Type(), cv.Type()) {
+			break
+		}
+		e = strip(cv.X)
+	}
+	bin, ok := e.(*ssa.BinOp)
+	if !ok {
+		return "", nil
+	}
+	isByte := func(v ssa.Value) bool {
+		bt, ok := v.Type().Underlying().(*types.Basic)
+		return ok && bt.Kind() == types.Uint8
+	}
+	k, isK := intConst(bin.Y)
+	if !isK {
+		return "", nil
+	}
+	switch bin.Op {
+	case token.AND:
+		if k != 15 {
+			return "", nil
+		}
+		if sh, isSh := strip(bin.X).(*ssa.BinOp); isSh && sh.Op == token.SHR {
+			if k2, ok := intConst(sh.Y); ok && k2 == 4 {
+				return "hi", sh.X
+			}
+			return "", nil
+		}
+		return "lo", bin.X
+	case token.REM:
+		if k == 16 && isByte(bin.X) {
+			return "lo", bin.X
+		}
+	case token.SHR:
+		if k == 4 && isByte(bin.X) {
+			return "hi", bin.X
+		}
+	case token.QUO:
+		if k == 16 && isByte(bin.X) {
+			return "hi", bin.X
+		}
+	}
+	return "", nil
 }
